@@ -23,7 +23,8 @@ RULE = ('sandbox trees T/<root>/..., with decoy layer files outside the root (T/
 ASSUMPTIONS = ['reads of the Go runtime\'s own files outside T (/proc, /sys, /etc) are not judged', 'error text may differ between "missing" and "escapes the root"']
 
 ATTEMPTS = ['symlink-abs-inside-then-out', 'symlink-abs-dir-then-out', 'parent-dotdot', 'parent-prefix-sibling', 'parent-root-file-sibling', 'symlink-file', 'symlink-file-child', 'symlink-dir-input', 'symlink-dir-parent', 'parent-absolute',
-            'parent-wildcard', 'symlink-chain', 'reenter-path', 'reenter-symlink', 'symlink-absolute', 'control']
+            'parent-wildcard', 'symlink-chain', 'reenter-path', 'reenter-symlink', 'symlink-absolute', 'control',
+            'parent-list-mixed', 'parent-sibling-link', 'parent-list-mixed-missing']
 SPELLINGS = ['name', 'dot', 'dotdot', 'absolute', 'via-symlink', 'empty', 'long-empty', 'trailing-slash', 'dot-slash']
 ROOTS = ['root', 'conf', 'r']
 
@@ -118,6 +119,17 @@ def build(T, case, decoy_mode):
         os.symlink('../outside/back.' + ext, os.path.join(root, 'l.' + ext))
         body['$parent'] = 'l'
     elif a == 'control':
+        body['$parent'] = 'inner'
+    elif a == 'parent-list-mixed':
+        body['$parent'] = ['inner', '../outside/decoy']       # one parent inside, one outside
+    elif a == 'parent-list-mixed-missing':
+        body['$parent'] = ['../outside/decoy', 'inner', 'nosuchlayer']
+    elif a == 'parent-sibling-link':
+        # the parent name is provided by a file inside the root, and by a link (other extension) that leaves the root
+        other = 'json' if ext != 'json' else 'yaml'
+        os.symlink('../outside/decoy.' + other, os.path.join(root, 'inner.' + other))
+        if decoy_mode != 'absent':
+            write(os.path.join(T, 'outside', 'decoy.' + other), other, dec)
         body['$parent'] = 'inner'
     if body is not None:
         write(os.path.join(root, inp), ext, body)
